@@ -43,9 +43,11 @@ func (r *rec) finishLogger(l zerolog.Logger) *zerolog.Logger {
 	return &l
 }
 
-func (r *rec) plain() *zerolog.Logger         { return r.finishLogger(r.base()) }
-func (r *rec) ctx() *zerolog.Logger           { return r.finishLogger(r.base().With().Caller().Logger()) }
-func (r *rec) ctxCount(n int) *zerolog.Logger { return r.finishLogger(r.base().With().CallerWithSkipFrameCount(n).Logger()) }
+func (r *rec) plain() *zerolog.Logger { return r.finishLogger(r.base()) }
+func (r *rec) ctx() *zerolog.Logger   { return r.finishLogger(r.base().With().Caller().Logger()) }
+func (r *rec) ctxCount(n int) *zerolog.Logger {
+	return r.finishLogger(r.base().With().CallerWithSkipFrameCount(n).Logger())
+}
 
 func depthCall(n int, f func()) {
 	if n == 0 {
@@ -66,9 +68,11 @@ func (r *rec) done(id int, combo string, file string, line int) {
 		dec := json.NewDecoder(bytes.NewReader(ln))
 		dec.Token()
 		for dec.More() {
-			k, _ := dec.Token()
+			k, err := dec.Token()
 			var v interface{}
-			dec.Decode(&v)
+			if err != nil || dec.Decode(&v) != nil {
+				break
+			}
 			if k == zerolog.CallerFieldName {
 				ncaller++
 				got = fmt.Sprint(v)
